@@ -9,4 +9,5 @@ func init() {
 	fw.Families["C06"] = poolmon.RunC06
 	fw.Families["C17"] = poolmon.RunC17
 	fw.Families["C07"] = poolmon.RunC07
+	fw.Families["C16"] = poolmon.RunC16
 }
